@@ -53,6 +53,12 @@ CLAIMS = {
        "Tie: each documented deviation is injected at every applicable place of valid images, singly and combined: permissive dump must equal the undamaged dump and strict must answer InvalidData (oracle); all images (valid, deviated, corrupted) are opened in both modes by the crate and by the model and compared.",
   note="Zero-padded DIFAT / unmarked DIFAT sectors need files with > 109 FAT sectors: thorough tier only. Trusted base as C05.",
   design="§3 C16"),
+ "C14": dict(
+  technique="Lean 4 proof of deadlock freedom for any number of threads, any finite lock programs, any schedule and any admission rule that serves a free lock, under the per-call hypothesis that acquisitions happen at hold depth 0 (flat); the hypothesis is established on the real code by recording hold depths through hook H1; the converse witness (nested read vs waiting writer) is proved by evaluation and replayed on the implementation with a steered schedule",
+  text="Proof: CfbVerif.Props.C14 — C14_no_deadlock (no reachable state of flat threads is stuck, for every admission rule with FreeAdmits, in particular std's writer-preferring rule: std_freeAdmits), flatness is preserved by every step (flat_step, C14_successor_flat), and a single recursive read deadlocks against one writer (C14_nested_read_deadlocks). "
+       "Tie: every public read-only method, both iterators (to exhaustion and partially), every handle operation and mutating call is executed with H1 recording; each trace is rebuilt as a program and judged flat by the Lean definition; a steered schedule parks a reader between acquisitions while the handle thread asks for the write lock; an unsteered stress run adds schedules the OS picks.",
+  note="Assumed: RwLock's mutual exclusion and admission rule (std source), no memory-model effects, no panics under a guard (C05/C11). The whole iteration is not atomic by design; each next() is.",
+  design="§3 C14"),
 }
 
 def main():
